@@ -252,7 +252,7 @@ def analyse_bag(case, sr):
                 gd = cu.take("gdest")
                 if gd is None:
                     fail("no gdest line", "bag-output-missing"); return of, None, None
-                toks.append(("G", "/".join(",".join(g) if g else "-" for g in gd)))
+                toks.append(("G", ("/".join(",".join(g) if g else "-" for g in gd), prev_dump[cur])))
                 if any(int(d) < 0 or int(d) >= R for g in gd for d in g):
                     fail("global_shuffle drew a rank outside the communicator", "bag-shuffle-dest-range", gdest=gd)
             elif c == "S":
@@ -294,9 +294,12 @@ def analyse_bag(case, sr):
                     elif kind == "L":
                         toks[j] = " ".join(f"L:{r}:" + (",".join(map(str, vec[r])) or "-") for r in range(R))
                     elif kind == "G":
-                        toks[j] = f"G:{arg}:-"
-                        # the barrier token that follows carries nothing; the shuffle's own deliveries are scheduled here
-                        toks[j] = f"G:{arg}:@" + fmt_bags(vec)
+                        # destinations: as drawn (harness replays the generator) / as observed (where each item ended up:
+                        # an item that reaches a rank still inside global_shuffle's barrier is swapped out and sent again)
+                        pre = arg[1] or [[] for _ in range(R)]
+                        where = {x: r for r in range(R) for x in vec[r]}
+                        derived = "/".join(",".join(str(where.get(x, 0)) for x in pre[r]) if pre[r] else "-" for r in range(R))
+                        toks[j] = ("Gres", arg[0], derived, fmt_bags(vec))
                     continue
                 if toks[j] in ("D",) or toks[j].startswith(("g:", "a:")):
                     break
@@ -329,30 +332,25 @@ def analyse_bag(case, sr):
             if any(int(x[0]) != len(expected[cur]) for x in z):
                 fail(f"size() = {[x[0] for x in z]} but {len(expected[cur])} items were inserted", "bag-size", got=z)
     # unresolved tuple tokens (operation not followed by a dump) cannot be compared
-    toks = [t for t in toks if not (isinstance(t, tuple) and t[0] != "Rres")]
+    toks = [t for t in toks if not (isinstance(t, tuple) and t[0] not in ("Rres", "Gres"))]
     return of, toks, real
 
 
-def model_lines_bag(case, toks, ords_choice):
-    """ords_choice: list (one entry per rebalance) of 'desc' | 'asc' | explicit 'a,b/c/-' string"""
+def model_lines_bag(case, toks, ords_choice, gmode="drawn"):
+    """ords_choice: list (one entry per rebalance) of 'desc' | 'asc' | explicit 'a,b/c/-' string;
+    gmode: global_shuffle destinations as 'drawn' (replayed generator) or 'observed' (where the items ended up)"""
     out, k = [], 0
     for t in toks:
-        if isinstance(t, tuple):
+        if isinstance(t, tuple) and t[0] == "Rres":
             out.append(f"R:{ords_choice[k]}:@{t[1]}")
             k += 1
+        elif isinstance(t, tuple) and t[0] == "Gres":
+            out.append(f"G:{t[1] if gmode == 'drawn' else t[2]}:@{t[3]}")
+        elif isinstance(t, tuple):
+            out.append(t[0])      # 'K'
         else:
             out.append(t)
     return f"{case['ranks']} | " + " ".join(out)
-
-
-def insert_K(toks):
-    """same tokens with a `K` query (keys of to_send) before every rebalance"""
-    res = []
-    for t in toks:
-        if isinstance(t, tuple):
-            res.append("K")
-        res.append(t)
-    return res
 
 
 def compare_bag(case, toks, real, res_model):
@@ -516,77 +514,79 @@ def evaluate_tbag(case, sr, mo):
 
 
 def evaluate_bag(case, sr, model_ok=True):
-    """returns (oracle failures, correspondence failures)"""
-    cf = []
+    """returns (oracle failures, correspondence failures, notes)"""
+    cf, notes = [], []
     cid = cid_of(case)
     if sr.verdict != "ok":
         sig, tot = trap_signature(case, sr)
         what = f"real bag run failed ({sr.verdict})"
         if sig.startswith("bag-rebalance-trap"):
             what = f"rebalance() of {tot} items on {case['ranks']} ranks died ({sr.verdict})"
-        return [{"what": what, "signature": sig, "case": dict(cid, verdict=sr.verdict, total=tot, stderr=sr.stderr[-300:])}], cf
+        return [{"what": what, "signature": sig, "case": dict(cid, verdict=sr.verdict, total=tot, stderr=sr.stderr[-300:])}], cf, notes
     of, toks, real = analyse_bag(case, sr)
     if toks is None or not model_ok:
-        return of, cf
-    nreb = sum(1 for t in toks if isinstance(t, tuple))
-    choice = ["desc"] * nreb
-    mo = C.model("bag", [model_lines_bag(case, toks, choice)])[0]
-    bad = compare_bag(case, toks, real, mo)
-    if bad is not None and nreb:
-        # the iteration order of to_send is a parameter: search it (asc, then explicit permutations, rebalance by rebalance)
-        keys = C.model("bag", [model_lines_bag(case, insert_K(toks), choice)])[0]
-        for alt in (["asc"] * nreb,):
-            mo2 = C.model("bag", [model_lines_bag(case, toks, alt)])[0]
-            if compare_bag(case, toks, real, mo2) is None:
-                mo, bad, choice = mo2, None, alt
+        return of, cf, notes
+    nreb = sum(1 for t in toks if isinstance(t, tuple) and t[0] == "Rres")
+    ngs = sum(1 for t in toks if isinstance(t, tuple) and t[0] == "Gres")
+    mo, bad = None, 0
+    # parameters the code leaves open, tried in order: destinations of global_shuffle as drawn / as observed,
+    # iteration order of to_send descending (libstdc++ for few keys) / ascending / searched
+    for gmode in (["drawn", "observed"] if ngs else ["drawn"]):
+        for ords in (["desc"] * nreb, ["asc"] * nreb) if nreb else ([],):
+            mo = C.model("bag", [model_lines_bag(case, toks, ords, gmode)])[0]
+            bad = compare_bag(case, toks, real, mo)
+            if bad is None:
                 break
-        if bad is not None:
-            choice, mo, bad = search_ords(case, toks, real, nreb)
+        if bad is None:
+            if gmode == "observed":
+                notes.append("gshuffle:destinations-observed")
+            break
+    if bad is not None and nreb:
+        ords, mo, bad = search_ords(case, toks, real, nreb, "observed" if ngs else "drawn")
+        if bad is None:
+            notes.append("rebalance:to_send-order-searched")
     if bad is not None:
         md = (mo or "").split(" # ")
         cf.append({"relation": "BagOps.step (schedule parameters read off the real run) == every rank's m_local_bag / gather result",
                    "what": f"output #{bad}: real [{real[bad][:160] if bad < len(real) else None}] model [{md[bad][:160] if bad < len(md) else mo[:160]}]",
                    "case": dict(cid, output=bad)})
-    return of, cf
+    return of, cf, notes
 
 
-def search_ords(case, toks, real, nreb, budget=400):
+def search_ords(case, toks, real, nreb, gmode, budget=300):
     """try explicit iteration orders for the to_send maps, one rebalance after the other"""
     choice = ["desc"] * nreb
     R = case["ranks"]
     for k in range(nreb):
-        # keys at rebalance k under the choices made so far
         ktoks, seen = [], 0
         for t in toks:
-            if isinstance(t, tuple):
+            if isinstance(t, tuple) and t[0] == "Rres":
                 if seen == k:
-                    ktoks.append("K")
+                    ktoks.append(("K",))
                 seen += 1
             ktoks.append(t)
-        ans = C.model("bag", [model_lines_bag(case, ktoks, choice)])[0].split(" # ")
+        ans = C.model("bag", [model_lines_bag(case, ktoks, choice, gmode)])[0].split(" # ")
         kline = next((a for a in ans if "=" in a), None)
         if kline is None:
             continue
         per_rank = [[kv.split("=")[0] for kv in x.split()] for x in kline.split("|")]
         per_rank += [[]] * (R - len(per_rank))
         options = [list(itertools.permutations(p)) if len(p) <= 4 else [tuple(reversed(p)), tuple(p)] for p in per_rank[:R]]
-        tried = 0
-        best = None
+        tried, best = 0, None
         for combo in itertools.product(*options):
             tried += 1
             if tried > budget:
                 break
             choice[k] = "/".join(",".join(p) if p else "-" for p in combo)
-            mo = C.model("bag", [model_lines_bag(case, toks, choice)])[0]
+            mo = C.model("bag", [model_lines_bag(case, toks, choice, gmode)])[0]
             bad = compare_bag(case, toks, real, mo)
-            # accept when everything up to the next rebalance's dump agrees
             if bad is None:
                 return choice, mo, None
             if best is None or bad > best[0]:
                 best = (bad, choice[k])
         if best:
             choice[k] = best[1]
-    mo = C.model("bag", [model_lines_bag(case, toks, choice)])[0]
+    mo = C.model("bag", [model_lines_bag(case, toks, choice, gmode)])[0]
     return choice, mo, compare_bag(case, toks, real, mo)
 
 
@@ -643,11 +643,13 @@ def run(tier, seed, model_ok=True):
     seen_sigs = set()
     for case, sr, br in zip(cases, runs, bag_results):
         res.evaluations += 1
-        of, cf = br if br is not None else evaluate_tbag(case, sr, next(tb_iter))
+        of, cf, notes = br if br is not None else (evaluate_tbag(case, sr, next(tb_iter)) + ([],))
+        for nt in notes:
+            res.count(nt)
         if cf and not of and case["mode"] == "bag":
             for k in range(6):      # search around the disagreeing case for a failing input
                 alt = dict(case, sim_seed=case["sim_seed"] + 1 + k, policy=POLICIES[k % len(POLICIES)])
-                of2, _ = evaluate_bag(alt, run_real(binary, alt), model_ok=False)
+                of2 = evaluate_bag(alt, run_real(binary, alt), model_ok=False)[0]
                 if of2:
                     of = of2
                     break
@@ -697,12 +699,12 @@ def replay(data):
         print(r, sr.outs.get(r))
     try:
         if case["mode"] == "bag":
-            of, cf = evaluate_bag(case, sr, True)
+            of, cf, _ = evaluate_bag(case, sr, True)
         else:
             of, cf = evaluate_tbag(case, sr, C.model("bag", [model_line_tbag(case)])[0])
     except Exception as ex:  # noqa: BLE001
         print("model unavailable:", ex)
-        of, cf = (evaluate_bag(case, sr, False) if case["mode"] == "bag" else evaluate_tbag(case, sr, None))
+        of, cf = (evaluate_bag(case, sr, False)[:2] if case["mode"] == "bag" else evaluate_tbag(case, sr, None))
     for f in of + cf:
         print("FAIL", f.get("signature") or f.get("relation"), f["what"])
     return not of and not cf
